@@ -208,6 +208,13 @@ FDo(s, a) ==
     [] a.op = "setcap" -> FInst([s EXCEPT !.cap = a.c], Trimmed(s.order, s.val, s.sz, s.size, a.c))
     [] OTHER -> s
 FAgrees == [][FSt' = FDo(FSt, last')]_allvars
+(* a key that is not there, stored where there is room for it, goes to the front and nothing else *)
+(* changes (LRU_Trace applies a run of such insertions in one piece on the strength of this)       *)
+FillLemma == [][LET a == last' IN
+                  (a.op \in {"set", "setx", "setnx"} /\ ~Has(a.k) /\ size + Charge(a) <= cap) =>
+                     /\ order' = <<a.k>> \o order /\ val' = Ext(val, a.k, a.v)
+                     /\ sz' = Ext(sz, a.k, Charge(a)) /\ size' = size + Charge(a) /\ evict' = evict
+               ]_allvars
 (* no method looks at the eviction counter: started with another count, it does the same and adds *)
 (* the same number (LRU_Trace skips whole periods of a periodic run on the strength of this)      *)
 EvictFree == [][LET a == last' IN \A x \in {0, 5} :
